@@ -238,6 +238,23 @@ func c05Tasks(tier string) []mc.Task {
 			}
 		}
 	}
+	// (iv') reference codons split by a run of 3 or 4 gaps (an in-frame insertion in the other row):
+	// reference = one codon with the run after its 1st or 2nd base, optionally followed by a whole
+	// codon; the other row ranges over every string of that length over {A,C,-}
+	for _, g := range []int{3, 4} {
+		for _, at := range []int{1, 2} {
+			for _, tail := range []string{"", "TAC"} {
+				ref := "ACG"[:at] + strings.Repeat("-", g) + "ACG"[at:] + tail
+				g, at, tail, ref := g, at, tail, ref
+				ts = append(ts, mc.Task{Name: fmt.Sprintf("byrefgap#g%d/at%d/%s", g, at, tail), Run: func(c *mc.Ctx) {
+					forEachStringLen("AC-", len(ref), nil, func(s []byte) bool {
+						c05Check(c, c05Case{Kind: "byref", Seqs: []string{ref, string(s)}, Frame: 0, Code: align.GENETIC_CODE_STANDARD, Ref: 0})
+						return !c.Expired()
+					})
+				}})
+			}
+		}
+	}
 	if tier == "thorough" {
 		// 3 rows, L<=4, other codes
 		for l := 3; l <= 4; l++ {
@@ -641,7 +658,7 @@ func init() {
 		Level: "exploration",
 		Rule: "bounded-exhaustive enumeration: (i) all 42^3 codons over IUPAC letters in both cases plus - . * ? X x Z 1 space 0xE9, x 3 genetic codes, through Sequence.Translate and Alignment.Translate, and every codon under the three codes in all 6 orders inside one process (a result must not depend on which code an earlier call used); " +
 			"(ii) all sequences of length 0..6 (quick) / 0..8 (thorough) over {A,T,G,R,-} x frames {0,1,2,-1} x 3 codes through Sequence/SeqBag/Alignment.Translate; " +
-			"(iii) CodonAlign for all nt rows of length 3..6/8 over ACGT with every placement of <=2 gap columns; (iv) TranslateByReference for all 2-row alignments L<=6/7 over {A,C,G,-} x frames x each reference. " +
+			"(iii) CodonAlign for all nt rows of length 3..6/8 over ACGT with every placement of <=2 gap columns; (iv) TranslateByReference for all 2-row alignments L<=6/7 over {A,C,G,-} x frames x each reference, and for references whose codon is split by a run of 3 or 4 gaps (after its 1st or 2nd base, with and without a following codon) against every other row over {A,C,-}. " +
 			"A case is non-trivial when the call succeeded and its full result was compared with the NCBI-table oracle (error-path and skipped cases are not counted); distinct = distinct (entry point, input, frame, code).",
 		Assumptions: []string{
 			"NCBI translation tables 1, 2, 5 entered in the harness as the canonical 64-letter strings are correct",
